@@ -289,6 +289,9 @@ pub fn sites(tier: Tier) -> Vec<Site> {
         }
         alpha.push('8');
         alpha.push('L');
+        // the two characters an encoder is tempted to approximate in ASCII under Shift_JIS (yen sign, overline)
+        alpha.push('\u{a5}');
+        alpha.push('\u{203e}');
         let maxlen = if tier == Tier::Thorough { 6 } else { 5 };
         let k = alpha.len() as u64;
         let mut starts = vec![];
@@ -301,7 +304,7 @@ pub fn sites(tier: Tier) -> Vec<Site> {
         let alpha = Arc::new(alpha);
         let a2 = alpha.clone();
         sites.push(Site::new("strings", count,
-            &format!("all strings of length 0..={maxlen} over {{ASCII, one character owned by each of the ten pages, a character shared by several pages, a character in no page, a double-byte character with trail byte 0x5E from each double-byte page, one with a lead-like trail byte, '8', 'L'}} ({} symbols)", a2.len()),
+            &format!("all strings of length 0..={maxlen} over {{ASCII, one character owned by each of the ten pages, a character shared by several pages, a character in no page, a double-byte character with trail byte 0x5E from each double-byte page, one with a lead-like trail byte, '8', 'L', yen sign, overline}} ({} symbols)", a2.len()),
             move |i, acc| {
                 let mut l = 0;
                 for (q, s) in starts.iter().enumerate() {
